@@ -30,6 +30,7 @@ func main() {
 		replays = flag.String("replays", "", "directory for counterexample files")
 		nomerge = flag.Bool("nomerge", false, "disable if-conversion")
 		verbose = flag.Bool("v", false, "verbose")
+		selfrec = flag.Int("selfrec", 4, "how often one function may be active on a call stack before it counts as unbounded recursion")
 		tier    = flag.String("tier", "quick", "quick|thorough (read by harnesses through vxThorough)")
 		known   = flag.String("known", "", "comma separated keys of open known findings (vxKnownOpen)")
 	)
@@ -45,7 +46,7 @@ func main() {
 	}
 	cfg := Config{Repo: *repo, Tags: *tags, Pkg: *pkg, Overlay: ov, Workers: *workers, TimeoutMs: *timeout, Seed: *seed,
 		MaxInstrs: *maxi, NoMerge: *nomerge, Unwind: *unwind, UnwindCut: *cut, RecLimit: *rec, MaxViol: *maxv, MaxPaths: *maxp,
-		ReplayDir: *replays, Verbose: *verbose, Tier: *tier, Known: map[string]bool{}}
+		ReplayDir: *replays, Verbose: *verbose, Tier: *tier, SelfRecLimit: *selfrec, Known: map[string]bool{}}
 	for _, k := range strings.Split(*known, ",") {
 		if k != "" {
 			cfg.Known[k] = true
